@@ -2,6 +2,10 @@ import Sudachi.Model.Wire
 import Sudachi.Model.CharCat
 import Sudachi.Model.Edit
 import Sudachi.Model.Lattice
+import Sudachi.Model.Sentence
+import Sudachi.Model.OovIO
+import Sudachi.Model.Normalize
+import Sudachi.Model.Numeric
 /-! Line protocol dispatcher: one case per line in, one answer per line out. -/
 namespace Driver
 
@@ -14,6 +18,10 @@ def answer (line : String) : String :=
     | "C17" => CharCat.handle rest
     | "C08" => EditM.handle rest
     | "C02" => Vit.handle rest
+    | "C16" => Sentence.handle rest
+    | "C13" => Oov.handle op rest
+    | "C07" => Normalize.handle op rest
+    | "C15" => Numeric.handle op rest
     | _ => "bad-op"
   | _ => "bad-op"
 
